@@ -591,7 +591,11 @@ const RT = {
   // monotone (so it lies between the neighbouring integers), relative error <= 2^-53.
   truncQuot(q, mode) {
     const n = q.n, d = q.d;
-    if (this.solver.check([this.nameBool('(= ' + d.t + ' 0)')]) !== 'unsat') return unsupported('truncation of a quotient whose divisor may be zero');
+    if (this.solver.check([this.nameBool('(= ' + d.t + ' 0)')]) !== 'unsat') {
+      // n / 0 is an infinity (or NaN for 0 / 0) in JavaScript; a 32-bit coercion turns either into 0.  Decided as a branch of the path.
+      if (mode === 'raw') return unsupported('truncation of a quotient whose divisor may be zero');
+      if (this.branch('(= ' + d.t + ' 0)')) return 0;
+    }
     const tq = this.def('Int', '(tdiv ' + n.t + ' ' + d.t + ')');
     this.st.flags.quot = true;
     // can rounding reach the next integer?  |n/d| < 2^53 and d != 0:
